@@ -112,6 +112,8 @@ class G:
             "buffer_with_count": lambda p: ["buffer_with_count", str(g.r.choice([1, 2, 3])), p],
             "materialize": lambda p: ["materialize", p],
             "is_even": lambda p: ["map", "isEven", p],
+            "window_with_count": lambda p: ["window_with_count", str(g.r.choice([1, 2, 3])), p],
+            "group_by": lambda p: ["group_by", g.r.choice([["mod", "2"], ["mod", "3"]]), p],
         }
 
     def ops_agnostic(self):
@@ -226,6 +228,8 @@ PARAM_OPS = {
     "skip_last": [["0"], ["1"], ["2"], ["5"]],
     "element_at": [["0"], ["1"], ["2"], ["3"], ["4"], ["5"]],
     "buffer_with_count": [["1"], ["2"], ["3"]],
+    "window_with_count": [["1"], ["2"], ["3"]],
+    "group_by": [[["mod", "2"]], [["mod", "3"]], ["id"]],
     "map": [["inc"], ["dbl"], [["mod", "2"]]],
     "filter": [["tt"], ["ff"], ["even"], [["lt", "2"]]],
     "take_while": [["tt"], ["ff"], [["lt", "2"]], ["even"]],
